@@ -2,7 +2,7 @@
 //! equivalent to the size that created it when reading from call data.
 
 use crate::{
-    constant::BYTE_SIZE_BITS,
+    constant::{BYTE_SIZE_BITS, WORD_SIZE_BITS},
     error::unification::Result,
     tc::{expression::TE, rule::InferenceRule, state::TypeCheckerState},
     vm::value::{known::KnownWord, TCBoxedVal, TCSVD},
@@ -38,8 +38,14 @@ impl InferenceRule for CallDataRule {
         };
 
         // Otherwise, we can infer that the type of the value is word
-        let value_bits: usize =
-            <KnownWord as Into<usize>>::into(byte_size).saturating_mul(BYTE_SIZE_BITS);
+        // A word cannot be wider than the EVM word, so a larger read says nothing about the
+        // width of the value
+        let Some(value_bits) = <KnownWord as Into<usize>>::into(byte_size)
+            .checked_mul(BYTE_SIZE_BITS)
+            .filter(|bits| *bits <= WORD_SIZE_BITS)
+        else {
+            return Ok(());
+        };
         state.infer_for(value, TE::bytes(Some(value_bits)));
 
         // All done
